@@ -72,3 +72,10 @@ Theorem C08_eigenvalues_are_determined_by_the_matrix n (V V' : qmat RR) (lam lam
   meq n n (@usv RR n V lam V) (@usv RR n V' lam' V') -> forall k, k < n -> lam k = lam' k.
 Proof. exact (eigenvalues_unique n V V' lam lam'). Qed.
 Print Assumptions C08_eigenvalues_are_determined_by_the_matrix.
+
+From QVT Require Import SquareIso.
+(* "a unitary V": for a square quaternion matrix orthonormal columns are enough -- V^H V = I implies V V^H = I (n + 1 vectors in dimension n are
+   dependent: thm/Kernel.v), so the one-sided residual the harness measures certifies unitarity *)
+Theorem C08_square_orthonormal_is_unitary n (V : qmat RR) : meq n n (qmm n (qherm V) V) qmid -> meq n n (qmm n V (qherm V)) qmid.
+Proof. exact (orthonormal_square_is_unitary n V). Qed.
+Print Assumptions C08_square_orthonormal_is_unitary.
